@@ -220,6 +220,40 @@ func BytesEq(a, b []byte) bool {
 	return true
 }
 
+// Dump prints a value (symbolic: the term) for harness debugging.
+func Dump(tag string, v any) {}
+
+// MinF / MaxF: branch-free float minimum / maximum (operands are never NaN in the harnesses).
+func MinF(a, b float64) float64 {
+	if b < a {
+		return b
+	}
+	return a
+}
+func MaxF(a, b float64) float64 {
+	if b > a {
+		return b
+	}
+	return a
+}
+
+var lastUUID []byte
+
+// UUIDNew stands in for uuid.New during native replays (16 bytes from the model).
+func UUIDNew() [16]byte {
+	b := Bytes("uuid", 16)
+	lastUUID = b
+	var u [16]byte
+	copy(u[:], b)
+	return u
+}
+
+// LastUUID returns the bytes of the UUID most recently drawn from the uuid model.
+func LastUUID() []byte { return lastUUID }
+
+// UUIDsDiffer: the last two UUIDs drawn from the uuid model are different (symbolic only; native: always true).
+func UUIDsDiffer() bool { return true }
+
 // Symbolic reports whether the code runs under the symbolic executor.
 func Symbolic() bool { return false }
 
@@ -231,6 +265,12 @@ func ClockAdvance(d time.Duration) {
 }
 func NowNs() int64 { mu.Lock(); defer mu.Unlock(); return vnow }
 func Yield()       {}
+
+// TimeNow / TimeSince: the virtual clock as time.Time, used by native replays (drivers' time.Now()/time.Since are
+// routed here through the replay overlay).
+func TimeNow() time.Time                  { return time.Unix(0, NowNs()) }
+func TimeSince(t time.Time) time.Duration { return time.Duration(NowNs() - t.UnixNano()) }
+
 func LiveGoroutines() int { return 0 }
 
 // Concretize forks the symbolic path over the feasible values of v (native: identity).
